@@ -112,6 +112,79 @@ def evaluate(case):
         shutil.rmtree(wd, ignore_errors=True)
 
 
+def evaluate_boundary(case):
+    """a listing longer than the 128 KiB line-reader buffer, tuned so that a chosen byte of a quoted token is the last / first byte of a buffer fill"""
+    special, which, target = case["special"], case["which"], case["target"]
+    wd = tempfile.mkdtemp(prefix="b", dir=SCR)
+    label = "listing > 128 KiB, byte %r of name %r at listing offset %d" % (which, special, target)
+    try:
+        def build(padlen, nfill):
+            src = os.path.join(wd, "src")
+            shutil.rmtree(src, ignore_errors=True)
+            os.makedirs(src)
+            os.mkfifo(os.path.join(os.fsencode(src), b"0" + b"p" * padlen), 0o644)
+            for i in range(nfill):
+                os.mkfifo(os.path.join(os.fsencode(src), b"1f%04d" % i + b"x" * 84), 0o644)
+            os.mkfifo(os.path.join(os.fsencode(src), b"2" + special), 0o600)
+            for i in range(3):
+                os.mkfifo(os.path.join(os.fsencode(src), b"3tail%d" % i), 0o644)
+            img = os.path.join(wd, "one.sqfs")
+            if os.path.exists(img):
+                os.unlink(img)
+            r = run_tool([T["gensquashfs"], "-q", "-c", "gzip", "-b", "4096", "-D", src, img], timeout=120)
+            shutil.rmtree(src, ignore_errors=True)
+            if r.rc != 0:
+                raise RuntimeError("cannot pack the boundary tree: %s" % r.err[-300:])
+            rd = run_tool([T["rdsquashfs"], "-d", img], timeout=60)
+            if rd.rc != 0:
+                raise RuntimeError("describe failed on the boundary tree: %s" % rd.err[-300:])
+            return img, rd.out
+        printed = b'"2' + special.replace(b"\\", b"\\\\").replace(b'"', b'\\"') + b'"'
+
+        def where(listing):
+            at = listing.find(printed)
+            return None if at < 0 else at + printed.index(which)
+        padlen, nfill = 100, int(target / 106) + 20
+        img1, listing = build(padlen, nfill)
+        off = where(listing)
+        if off is None:
+            return dict(status="violation", fp="C16|boundary|token-not-found", what=label + "\nprinted form %r not found in the listing" % printed, files={"listing.txt": listing[-3000:]})
+        a0, a1 = listing.find(b"1f0000"), listing.find(b"1f0001")
+        linelen = a1 - a0
+        nfill -= (off - target + 40) // linelen        # leaves the byte a little short of the target; the pad name makes up the rest
+        img1, listing = build(padlen, nfill)
+        off = where(listing)
+        padlen += target - off
+        if not (1 <= padlen <= 250):
+            raise RuntimeError("cannot tune the listing offset: pad length %d" % padlen)
+        img1, listing = build(padlen, nfill)
+        if where(listing) != target:
+            raise RuntimeError("boundary tuning failed: byte at %s, wanted %d" % (where(listing), target))
+        lf = os.path.join(wd, "listing.txt")
+        open(lf, "wb").write(listing)
+        img2 = os.path.join(wd, "two.sqfs")
+        r2 = run_tool([T["gensquashfs"], "-q", "-c", "gzip", "-b", "4096", "-F", lf, img2], timeout=120, cwd=wd)
+        files = {"case.json": json.dumps(dict(boundary=True, special=special.decode("latin1"), which=which.decode("latin1"), target=target)), "listing.txt": listing}
+        if r2.crashed:
+            return dict(status="violation", fp="C16|boundary|repack-crash|" + r2.crash_fingerprint(), what=label + "\n" + r2.err.decode("latin1")[-1500:], files=files)
+        if r2.rc != 0:
+            return dict(status="violation", fp="C16|boundary|listing-rejected", what=label + "\ngensquashfs refuses the describe output: " + r2.err.decode("latin1")[-300:], files=files)
+        im1, e1 = packcheck.decode(img1)
+        im2, e2 = packcheck.decode(img2)
+        if im1 is None or im2 is None:
+            return dict(status="violation", fp="C16|boundary|undecodable", what=label + "\n%s %s" % (e1, e2), files=files)
+        a = sqfsck.canon_tree(im1, with_mtime=False)
+        b = sqfsck.canon_tree(im2, with_mtime=False)
+        a.pop(b"", None)
+        b.pop(b"", None)
+        diffs = treegen.diff_trees(a, b, ignore=("mtime", "xattrs"))
+        if diffs:
+            return dict(status="violation", fp="C16|boundary|tree-differs", what=label + "\nrebuilt tree differs:\n  " + "\n  ".join(diffs[:5]), files=files)
+        return dict(status="ok", sha=sha(listing))
+    finally:
+        shutil.rmtree(wd, ignore_errors=True)
+
+
 def main():
     global SCR
     cr = CheckRun("C16", "exploration", default_budget=(420, 3000))
@@ -120,6 +193,9 @@ def main():
         T.update(build.build_tools(build.variant("asan"), os.path.join(sd, "bin"), tools=["gensquashfs", "rdsquashfs"]))
         if cr.replay:
             c = json.load(open(os.path.join(cr.replay, "case.json")))
+            if c.get("boundary"):
+                print(evaluate_boundary(dict(special=c["special"].encode("latin1"), which=c["which"].encode("latin1"), target=c["target"])))
+                return 1
             print(evaluate(dict(names=[n.encode("latin1") for n in c["names"]], targets=[t.encode("latin1") for t in c["targets"]], unpack_root=c["unpack_root"],
                                 devs=[(d[0].encode("latin1"), d[1], d[2], d[3]) for d in c.get("devs", [])],
                                 attrs=[(a_[0].encode("latin1"), a_[1], a_[2], a_[3]) for a_ in c.get("attrs", [])])))
@@ -177,6 +253,16 @@ def main():
                 seen.add(r["sha"])
                 if len(cr.coverage["samples"]) < 5 and classify(c["names"][0]) not in ("plain", "highbyte"):
                     cr.sample({"names": [n.decode("latin1") for n in c["names"]], "targets": [t.decode("latin1") for t in c["targets"]], "unpack_root": c["unpack_root"]})
+        # listings longer than the line reader's buffer
+        bcases = [dict(special=sp_, which=wh_, target=tg_) for sp_, wh_ in ((b"a\rb", b"\r"), (b'a"b', b'"'), (b'a"b', b"\\"), (b"a b", b" "), (b"a\\b", b"\\"))
+                  for tg_ in ((131071, 131072) if cr.quick else (131070, 131071, 131072, 131073, 262143, 262144))]
+        for c, r in zip(bcases, pmap(evaluate_boundary, bcases)):
+            n_eval += 1
+            if r["status"] == "violation":
+                cr.violation(r["fp"], r["what"], files=r["files"], replay_sh="python3 /verif/checks/C16.py --replay \"$PWD\"")
+            else:
+                seen.add(r["sha"])
+        cr.coverage["buffer_boundary_cases"] = len(bcases)
         cr.coverage.update(evaluations=n_eval, distinct_nontrivial=len(seen), alphabet=[s.decode("latin1") for s in SIGMA], max_name_length=L,
                            rule="Names = all strings of length 1..%d over {a, space, tab, \", \\, #, ', 0xE9}; each name is used for a file, a directory with a child and a device (original image "
                                 "packed from a real directory so no pack-file quoting is involved in creating it); symlink targets = all strings of length <=2 over the alphabet plus '/'; "
